@@ -7,306 +7,16 @@ Theorems about `Vegeta.Model.DecoderFor`: the loop of `DecoderFor` over the read
 transcoding chains over an abstract codec family.
 -/
 import Vegeta.Model.DecoderFor
+import Vegeta.Proofs.Sniff
 import Vegeta.Proofs.Chain
 import Vegeta.Proofs.ChainCodecs
+import Vegeta.Proofs.Commands
 import Vegeta.Extracted.Facts
 namespace Vegeta.Props.C08
 open Vegeta.Go Vegeta.Model.DecoderFor
 
-/-! ### the reader algebra -/
-
-theorem aux_readUnder (rest : Bytes) (q : ReadReq) :
-    (readUnder rest q).1 ++ (readUnder rest q).2 = rest := by
-  simp [readUnder, List.take_append_drop]
-
-theorem aux_readMem (s : Bytes) (n : Nat) : (readMem s n).1 ++ (readMem s n).2 = s := by
-  simp [readMem, List.take_append_drop]
-
-theorem aux_chunk_pos (n k remaining : Nat) (hn : 1 ≤ n) (hr : 1 ≤ remaining) :
-    1 ≤ chunk n k remaining ∧ chunk n k remaining ≤ min n remaining := by
-  unfold chunk
-  simp only []
-  have : min n remaining ≠ 0 := by omega
-  simp only [this, ↓reduceIte]
-  split <;> omega
-
-/-- an underlying `Read` never returns more than asked for, and at least one byte unless the
-buffer is empty or nothing remains -/
-theorem aux_chunk_le (n k remaining : Nat) : chunk n k remaining ≤ min n remaining := by
-  unfold chunk
-  simp only []
-  split
-  · omega
-  · split <;> omega
-
-/-- Invariant of one trial: what the trial decoder has seen so far, followed by the unread part of
-the snapshot, is `buf`; and `buf` followed by the unread part of `r` is the original stream. -/
-def TrialInv (orig : Bytes) (seen : Bytes) (t : Trial) : Prop :=
-  seen ++ t.snap = t.st.buf ∧ t.st.buf ++ t.st.under = orig
-
-theorem aux_trial_start (orig : Bytes) (s : Sniff) (h : s.stream = orig) :
-    TrialInv orig [] (Trial.start s) := by
-  exact ⟨rfl, h⟩
-
-theorem aux_trial_read (orig seen : Bytes) (t : Trial) (q : ReadReq) (h : TrialInv orig seen t) :
-    TrialInv orig (seen ++ (t.read q).1) (t.read q).2 := by
-  obtain ⟨h1, h2⟩ := h
-  unfold Trial.read
-  split
-  · simpa [TrialInv] using ⟨h1, h2⟩
-  · split
-    · rename_i b bs hs
-      simp only [TrialInv]
-      refine ⟨?_, h2⟩
-      rw [List.append_assoc, aux_readMem, h1]
-    · rename_i hs
-      simp only [TrialInv]
-      rw [hs, List.append_nil] at h1
-      refine ⟨by rw [hs, List.append_nil, h1], ?_⟩
-      rw [List.append_assoc, aux_readUnder, h2]
-
-theorem aux_trial_run (orig : Bytes) : ∀ (script : Script) (seen : Bytes) (t : Trial),
-    TrialInv orig seen t → TrialInv orig (seen ++ (t.run script).1.flatten) (t.run script).2 := by
-  intro script
-  induction script with
-  | nil => intro seen t h; simpa [Trial.run] using h
-  | cons q qs ih =>
-    intro seen t h
-    have h1 := aux_trial_read orig seen t q h
-    have h2 := ih _ _ h1
-    simpa [Trial.run, List.append_assoc] using h2
-
-/-- One whole trial, whatever its read script and the chunking of the underlying reader: the state
-it leaves behind still denotes the original stream, and the bytes the trial decoder saw are the
-first bytes of the original stream (nothing skipped, nothing replayed twice). -/
-theorem trial_preserves_stream (orig : Bytes) (s : Sniff) (script : Script) (h : s.stream = orig) :
-    ((Trial.start s).run script).2.st.stream = orig ∧
-    ((Trial.start s).run script).1.flatten <+: orig := by
-  have := aux_trial_run orig script [] (Trial.start s) (aux_trial_start orig s h)
-  obtain ⟨h1, h2⟩ := this
-  refine ⟨h2, ?_⟩
-  simp only [List.nil_append] at h1
-  rw [← h2, ← h1, List.append_assoc]
-  exact List.prefix_append _ _
-
-theorem aux_sniffFrom (orig : Bytes) : ∀ (trials : List TrialDec) (i0 : Nat) (s : Sniff),
-    s.stream = orig →
-    (∀ i st, (sniffFrom i0 s trials).1 = some (i, st) → st.stream = orig) ∧
-    (∀ seen ∈ (sniffFrom i0 s trials).2, seen.flatten <+: orig) := by
-  intro trials
-  induction trials with
-  | nil => intro i0 s _; simp [sniffFrom]
-  | cons d ds ih =>
-    intro i0 s h
-    have ht := trial_preserves_stream orig s d.script h
-    unfold sniffFrom
-    simp only []
-    split
-    · refine ⟨?_, ?_⟩
-      · intro i st hh
-        simp only [Option.some.injEq, Prod.mk.injEq] at hh
-        rw [← hh.2]; exact ht.1
-      · intro seen hs
-        simp only [List.mem_singleton] at hs
-        rw [hs]; exact ht.2
-    · have := ih (i0 + 1) _ ht.1
-      refine ⟨this.1, ?_⟩
-      intro seen hs
-      rcases List.mem_cons.mp hs with h' | h'
-      · rw [h']; exact ht.2
-      · exact this.2 seen h'
-
-/-- **"… format detection selects a decoder that yields exactly the encoded sequence from the first
-record on (nothing consumed while sniffing is lost or replayed twice)."**  After any number of
-failed trials, with any read scripts (over-reading by any amount) and any chunking of the
-underlying reader, the reader handed to the chosen decoder, `MultiReader(&buf, r)`, denotes the
-original stream from byte 0: `buf ++ rest = original`. -/
-theorem sniff_preserves_stream (orig : Bytes) (trials : List TrialDec) (i : Nat) (st : Sniff)
-    (h : (decoderFor orig trials).1 = some (i, st)) : st.buf ++ st.under = orig :=
-  (aux_sniffFrom orig trials 0 ⟨[], orig⟩ rfl).1 i st h
-
-/-- Every trial decoder, too, is shown the original stream from byte 0. -/
-theorem sniff_trials_see_prefix (orig : Bytes) (trials : List TrialDec) :
-    ∀ seen ∈ (decoderFor orig trials).2, seen.flatten <+: orig :=
-  (aux_sniffFrom orig trials 0 ⟨[], orig⟩ rfl).2
-
-/-! ### the final reader -/
-
-theorem aux_final_read (s : Sniff) (q : ReadReq) :
-    (finalRead s q).1 ++ (finalRead s q).2.stream = s.stream := by
-  unfold finalRead
-  split
-  · simp
-  · split
-    · rename_i b bs hs
-      simp only [Sniff.stream]
-      rw [← List.append_assoc, aux_readMem]
-    · rename_i hs
-      simp only [Sniff.stream, hs, List.nil_append]
-      exact aux_readUnder _ _
-
-/-- **What the chosen decoder reads is the stream, in order, each byte once**: after any reads on
-the final reader, the bytes returned so far followed by what the reader still denotes are the
-stream it denoted at the start. -/
-theorem final_reader_yields_stream : ∀ (script : Script) (s : Sniff),
-    (finalRun s script).1.flatten ++ (finalRun s script).2.stream = s.stream := by
-  intro script
-  induction script with
-  | nil => intro s; simp [finalRun]
-  | cons q qs ih =>
-    intro s
-    have h1 := aux_final_read s q
-    have h2 := ih (finalRead s q).2
-    simp only [finalRun, List.flatten_cons, List.append_assoc]
-    rw [h2, h1]
-
-/-- A `Read` with a non-empty buffer on the final reader returns at least one byte unless the
-stream is at its end (so the decoder is never starved and sees EOF only at the real end). -/
-theorem final_read_progress (s : Sniff) (q : ReadReq) (hn : 1 ≤ q.n) :
-    ((finalRead s q).1 = [] ↔ s.stream = []) := by
-  unfold finalRead
-  have hn0 : q.n ≠ 0 := by omega
-  simp only [hn0, ↓reduceIte]
-  split
-  · rename_i b bs hs
-    simp only [readMem, Sniff.stream, hs]
-    constructor
-    · intro h
-      have : (List.take q.n (b :: bs)).length = 0 := by rw [h]; rfl
-      simp at this; omega
-    · intro h; simp at h
-  · rename_i hs
-    simp only [readUnder, Sniff.stream, hs, List.nil_append]
-    constructor
-    · intro h
-      cases hu : s.under with
-      | nil => rfl
-      | cons c cs =>
-        exfalso
-        have hp := aux_chunk_pos q.n q.k s.under.length hn (by rw [hu]; simp)
-        have : (List.take (chunk q.n q.k s.under.length) s.under).length = 0 := by rw [h]; rfl
-        rw [List.length_take] at this
-        omega
-    · intro h; rw [h]; simp
-
-theorem aux_final_drains : ∀ (script : Script) (s : Sniff), (∀ q ∈ script, 1 ≤ q.n) →
-    s.stream.length ≤ script.length → (finalRun s script).1.flatten = s.stream := by
-  intro script
-  induction script with
-  | nil =>
-    intro s _ hl
-    have : s.stream = [] := List.length_eq_zero_iff.mp (by simpa using hl)
-    simp [finalRun, this]
-  | cons q qs ih =>
-    intro s hq hl
-    have h1 := aux_final_read s q
-    have hp := final_read_progress s q (hq q (by simp))
-    simp only [finalRun, List.flatten_cons]
-    by_cases he : s.stream = []
-    · have hg : (finalRead s q).1 = [] := hp.mpr he
-      have hs : (finalRead s q).2.stream = [] := by rw [hg, he] at h1; simpa using h1
-      rw [ih _ (fun q' h' => hq q' (by simp [h'])) (by rw [hs]; simp), hg, hs, he]; rfl
-    · have hg : (finalRead s q).1 ≠ [] := fun h => he (hp.mp h)
-      have hlen : (finalRead s q).2.stream.length < s.stream.length := by
-        have := congrArg List.length h1
-        rw [List.length_append] at this
-        have : 0 < (finalRead s q).1.length := List.length_pos_iff.mpr hg
-        omega
-      rw [ih _ (fun q' h' => hq q' (by simp [h'])) (by simp only [List.length_cons] at hl; omega)]
-      exact h1
-
-/-- **The chosen decoder can read the whole original stream**: after detection, enough non-empty
-reads on the final reader return exactly the original stream from byte 0 to its end. -/
-theorem final_reader_drains_original (orig : Bytes) (trials : List TrialDec) (i : Nat) (st : Sniff)
-    (h : (decoderFor orig trials).1 = some (i, st)) (script : Script) (hq : ∀ q ∈ script, 1 ≤ q.n)
-    (hl : orig.length ≤ script.length) : (finalRun st script).1.flatten = orig := by
-  have hs : st.stream = orig := sniff_preserves_stream orig trials i st h
-  rw [aux_final_drains script st hq (by rw [hs]; exact hl), hs]
-
-/-! ### which decoder is chosen -/
-
-theorem aux_first_accept : ∀ (trials : List TrialDec) (i0 : Nat) (s : Sniff),
-    (∀ i st, (sniffFrom i0 s trials).1 = some (i, st) →
-      i0 ≤ i ∧ (trials[i - i0]?.map (·.accept)) = some true ∧
-        ∀ j, j < i - i0 → (trials[j]?.map (·.accept)) = some false) ∧
-    ((sniffFrom i0 s trials).1 = none ↔ ∀ d ∈ trials, d.accept = false) := by
-  intro trials
-  induction trials with
-  | nil => intro i0 s; simp [sniffFrom]
-  | cons d ds ih =>
-    intro i0 s
-    unfold sniffFrom
-    simp only []
-    split
-    · rename_i hacc
-      refine ⟨?_, ?_⟩
-      · intro i st hh
-        simp only [Option.some.injEq, Prod.mk.injEq] at hh
-        obtain ⟨hi, _⟩ := hh
-        subst hi
-        simp [hacc]
-      · simp [hacc]
-    · rename_i hacc
-      have hacc' : d.accept = false := by simpa using hacc
-      obtain ⟨ih1, ih2⟩ := ih (i0 + 1) ((Trial.start s).run d.script).2.st
-      refine ⟨?_, ?_⟩
-      · intro i st hh
-        obtain ⟨hle, hget, hall⟩ := ih1 i st hh
-        have e : i - i0 = (i - (i0 + 1)) + 1 := by omega
-        refine ⟨by omega, ?_, ?_⟩
-        · rw [e]; simpa using hget
-        · intro j hj
-          cases j with
-          | zero => simp [hacc']
-          | succ j => simpa using hall j (by omega)
-      · rw [ih2]
-        simp [hacc']
-
-/-- **`DecoderFor` chooses the first factory whose trial accepts, and returns nil exactly when none
-accepts** ("it returns no decoder, rather than a wrong one, for input that is in none of the
-formats": a decoder is returned only if that format's own decoder accepted a first record read
-from byte 0 of the original stream). -/
-theorem detect_first_accepting (orig : Bytes) (trials : List TrialDec) :
-    (∀ i st, (decoderFor orig trials).1 = some (i, st) →
-      (trials[i]?.map (·.accept)) = some true ∧ ∀ j, j < i → (trials[j]?.map (·.accept)) = some false) ∧
-    ((decoderFor orig trials).1 = none ↔ ∀ d ∈ trials, d.accept = false) := by
-  obtain ⟨h1, h2⟩ := aux_first_accept trials 0 ⟨[], orig⟩
-  refine ⟨?_, h2⟩
-  intro i st h
-  obtain ⟨_, a, b⟩ := h1 i st h
-  exact ⟨by simpa using a, by simpa using b⟩
-
-/-- **Detection of the stream's own format.**  If the trial of format number `f` accepts the
-stream and the trials tried before it reject it, `DecoderFor` returns format `f`'s decoder over a
-reader that denotes the original stream. -/
-theorem detect_selects_own_format (orig : Bytes) (trials : List TrialDec) (f : Nat) (d : TrialDec)
-    (hf : trials[f]? = some d) (hown : d.accept = true)
-    (hbefore : ∀ j d', j < f → trials[j]? = some d' → d'.accept = false) :
-    ∃ st, (decoderFor orig trials).1 = some (f, st) ∧ st.buf ++ st.under = orig := by
-  obtain ⟨h1, h2⟩ := detect_first_accepting orig trials
-  cases hres : (decoderFor orig trials).1 with
-  | none =>
-    have := h2.mp hres d (List.mem_of_getElem? hf)
-    rw [hown] at this; cases this
-  | some p =>
-    obtain ⟨i, st⟩ := p
-    obtain ⟨ha, hb⟩ := h1 i st hres
-    have hif : i = f := by
-      rcases Nat.lt_trichotomy i f with hlt | heq | hgt
-      · exfalso
-        cases hi : trials[i]? with
-        | none => rw [hi] at ha; simp at ha
-        | some di =>
-          rw [hi] at ha
-          have := hbefore i di hlt hi
-          simp [this] at ha
-      · exact heq
-      · exfalso
-        have := hb f hgt
-        rw [hf] at this
-        simp [hown] at this
-    subst hif
-    exact ⟨st, rfl, sniff_preserves_stream orig trials i st hres⟩
+/-! ### the reader algebra, `sniff_preserves_stream`, the final reader, the chosen decoder: Proofs/Sniff.lean;
+the command level (`decoder(files)`, the `encode` command, output replacement): Proofs/Commands.lean -/
 
 /-! ### first bytes of encoded records -/
 
